@@ -396,7 +396,15 @@ def run(ctx):
                 key_e = strip_refs(peel_conv(key_e))
                 asks.append(("user" if is_user else "bundled", key_e, kb_, bb_))
         lkb = prog.body(lk_fn)
-        bad_key = [(w, e_, kb_, bb_) for (w, e_, kb_, bb_) in asks if not (e_.k == "arg" and lkb.locals[e_.a[0]]["ty"] == "&str")]
+        from . import c17 as _c17k
+        _acc = _c17k.accessors(prog)
+
+        def _is_typed_word(e_):
+            # the look-up's own word parameter, or (look-up written in place in the builder) the word part of the builder's split value
+            if e_.k == "arg" and lkb.locals[e_.a[0]]["ty"] == "&str":
+                return True
+            return e_.k == "call" and _acc.get(e_.a[0]) == "word" and e_.a[1] and strip_refs(peel_conv(e_.a[1][0])).k == "arg"
+        bad_key = [(w, e_, kb_, bb_) for (w, e_, kb_, bb_) in asks if not _is_typed_word(e_)]
         n_user = sum(1 for a_ in asks if a_[0] == "user")
         n_bund = sum(1 for a_ in asks if a_[0] == "bundled")
         if not asks:
